@@ -46,6 +46,11 @@ CLAIMED = {
     design='5 C08',
     note='Trusted: z3 / hash-consed term identity (substitution is exact, so most obligations are decided by identity of the symbolic terms), RNG stub, the unfixed objects as reference. Outside: ProblemModellingController.fix_parameters with data, predictive models, SBML-backed models.',
     technique='symbolic execution on z3 reals; inductive step over (mask, buffer) states x call dictionaries; SMT / term-identity equality'),
+ 'C12': dict(
+    text='Bounded symbolic verification of the five population filters and ComposedPopulationFilter: for all real measurements and simulated measurements within the bound z3 decides score = documented log-density sum with the documented empirical estimators, sensitivities = symbolic derivative in input order, invariance under permuting measured individuals, sort_times with consistently reordered simulations (all time permutations) and splitting over a composed filter; the log-sum-exp maximum branches are explored path by path.',
+    design='5 C12',
+    note='Trusted: z3, canonical exp/log/sqrt rules of chisym/canon.py (validated numerically on every obligation they decide), object-dtype NumPy reductions. Outside: missing values (numpy.ma cannot carry symbolic payloads), zero-variance simulated samples, arrays larger than the bound.',
+    technique='symbolic execution on z3 reals with path exploration of np.max + canonical normal form / SMT validity queries; symbolic differentiation as gradient oracle'),
 }
 
 NOT_APPLICABLE = {
